@@ -275,7 +275,8 @@ func (s *Scanner) findLineEnd() bool {
 			}
 		}
 		s.skipWhitespace() // s.insertSemi is set
-		if s.ch < 0 || s.ch == '\n' {
+		if s.ch < 0 || s.ch == '\n' || s.ch == '#' {
+			// (a #-style comment runs to the end of the line, like a //-style comment)
 			return true
 		}
 		if s.ch != '/' {
